@@ -1,6 +1,6 @@
-From InfOCF Require Import Core Tol Form Model Spec Ocf Exec.
+From InfOCF Require Import Core Tol Form Model Spec Ocf Parse Lexer Exec.
 Require Extraction.
 Require Import ExtrOcamlBasic.
 Extraction Language OCaml.
 Set Extraction Output Directory ".".
-Extraction "model.ml" run_case run_diag run_faithful run_mcs run_cinf run_zocf frank accept marginalize conditionalize ranks2tpo tpo_back.
+Extraction "model.ml" run_case run_diag run_faithful run_mcs run_cinf run_zocf frank accept marginalize conditionalize ranks2tpo tpo_back run_parse_formula run_parse_file run_parse_queries run_cond_text.
